@@ -136,3 +136,14 @@ PLAN["C19"] = dict(
         J("bulk-asan", "asan", ["c19"], shards=4, budget_s=q(t, 30, 300), parallel=4),
     ],
 )
+
+PLAN["C07"] = dict(
+    level="exploration",
+    engines=["iterator oracle: single-thread interleaving, lock-step with a gated resizing writer, free-run (native)", "orchestrated removal of the last node of a tree bin under an iterator"],
+    assumptions=["stability of a key is decided only from definite real-time facts of the recorded history"],
+    require={"lockstep_iterators_that_crossed_tables": 5, "stable_keys_verified": 1000, "freerun_rounds_iterating_across_resize": 5, "remover_stopped_with_empty_tree_bin": 1},
+    jobs=lambda t: [
+        J("iter", "native", ["c07", "--rounds", q(t, 120, 4000)], shards=q(t, 8, 12), budget_s=q(t, 30, 600), parallel=q(t, 8, 12)),
+        J("tree-last-node", "native", ["c07", "--part", "tree-last-node"], shards=1, budget_s=20),
+    ],
+)
